@@ -34,6 +34,7 @@ use lightning_signer::util::clock::StandardClock;
 use vls_persist::kvv::memory::MemoryKVVStore;
 use vls_persist::kvv::{JsonFormat, KVVPersister};
 use lightning_signer::policy::filter::{FilterResult, FilterRule, PolicyFilter};
+use lightning_signer::policy::onchain_validator::OnchainValidatorFactory;
 use lightning_signer::policy::simple_validator::{make_default_simple_policy, SimpleValidatorFactory};
 use lightning_signer::tx::tx::{CommitmentInfo2, HTLCInfo2};
 use lightning_signer::util::test_utils::key::{make_test_counterparty_points, make_test_pubkey};
@@ -65,6 +66,8 @@ struct SetupD {
     point: u8,
     /// the channel is set up and signed for through the protocol handler (wire messages), not through vls-core
     via: bool,
+    /// the channel was first set up with these values and then re-set-up (accepted) with the ones above
+    pre: Option<Box<SetupD>>,
 }
 
 #[derive(Clone, Debug, PartialEq)]
@@ -105,7 +108,7 @@ fn ldk_anchors(c: char) -> bool { c == 'z' }
 fn policy_for(mode: u8) -> lightning_signer::policy::simple_validator::SimplePolicy {
     let mut p = make_default_simple_policy(Network::Testnet);
     let mut rules = vec![FilterRule::new_warn("policy-channel-safe-type")];
-    if mode >= 1 {
+    if mode & 7 >= 1 {
         rules.push(FilterRule { tag: "policy-channel-".into(), is_prefix: true, action: FilterResult::Warn });
         for t in [
             "policy-commitment-fee-range",
@@ -116,16 +119,33 @@ fn policy_for(mode: u8) -> lightning_signer::policy::simple_validator::SimplePol
             "policy-commitment-payment-velocity",
             "policy-routing-balanced",
             "policy-routing-cltv-delta",
+            // OnchainValidator: the funding transaction of the harness' channels is never mined
+            "policy-commitment-spends-active-utxo",
         ] {
             rules.push(FilterRule::new_warn(t));
         }
     }
-    if mode == 2 {
-        rules.push(FilterRule::new_warn("policy-commitment"));
+    match mode & 7 {
+        2 => rules.push(FilterRule::new_warn("policy-commitment")),
+        // filters that demote tags C04's hypothesis does not name: the second-stage HTLC controls
+        3 => rules.push(FilterRule::new_warn("policy-htlc-other")),
+        4 => rules.push(FilterRule { tag: "policy-htlc-".into(), is_prefix: true, action: FilterResult::Warn }),
+        // everything demoted (PolicyFilter::new_permissive) except the dust rule, which keeps phase 2 from
+        // building HTLC transactions with a negative value
+        5 => {
+            rules.insert(0, FilterRule::new_error("policy-commitment-outputs-trimmed"));
+            // (the version test of decode_commitment_tx is the one filterable decoder check; the model has it unconditional)
+            rules.insert(0, FilterRule::new_error("policy-commitment-version"));
+            rules.push(FilterRule { tag: "".into(), is_prefix: true, action: FilterResult::Warn });
+        }
+        _ => {}
     }
     p.filter = PolicyFilter { rules };
     p
 }
+
+/// the filter demotes `policy-commitment` (the hypothesis of the "accepts only canon" conjunct fails)
+fn nonstrict(mode: u8) -> bool { matches!(mode & 7, 2 | 5) }
 
 fn make_setup(sd: &SetupD) -> ChannelSetup {
     ChannelSetup {
@@ -192,24 +212,10 @@ fn handler_err(e: HandlerError) -> String {
     }
 }
 
-/// Handler mode: HsmdInit, NewChannel, GetChannelBasepoints, SetupChannel with the negotiated values on the wire.
-fn fresh_base_wire(sd: &SetupD, c: &ContentD) -> Result<Live, String> {
-    let persister: Arc<dyn Persist> = Arc::new(KVVPersister(MemoryKVVStore::new([7u8; 16]), JsonFormat));
-    let root = build_root(persister.clone(), sd.mode)?;
-    let peer = wire_peer();
-    root.handle(WireMsg::NewChannel(msgs::NewChannel { peer_id: PubKey(peer), dbid: WIRE_DBID })).map_err(|e| format!("new channel: {}", handler_err(e)))?;
-    let reply = root.handle(WireMsg::GetChannelBasepoints(msgs::GetChannelBasepoints { node_id: PubKey(peer), dbid: WIRE_DBID })).map_err(|e| format!("basepoints: {}", handler_err(e)))?;
-    let bp = reply.as_any().downcast_ref::<msgs::GetChannelBasepointsReply>().ok_or("GetChannelBasepointsReply")?;
-    let pk = |p: &PubKey| PublicKey::from_slice(&p.0).map_err(|e| format!("pubkey: {}", e));
-    let holder = ChannelPublicKeys {
-        funding_pubkey: pk(&bp.funding)?,
-        revocation_basepoint: RevocationBasepoint(pk(&bp.basepoints.revocation)?),
-        payment_point: pk(&bp.basepoints.payment)?,
-        delayed_payment_basepoint: DelayedPaymentBasepoint(pk(&bp.basepoints.delayed_payment)?),
-        htlc_basepoint: HtlcBasepoint(pk(&bp.basepoints.htlc)?),
-    };
+/// one `SetupChannel` message with the values of `sd`
+fn wire_setup(root: &RootHandler, sd: &SetupD) -> Result<(), String> {
     let cp = make_test_counterparty_points();
-    let chan = root.for_new_client(1, PubKey(peer), WIRE_DBID);
+    let chan = root.for_new_client(1, PubKey(wire_peer()), WIRE_DBID);
     chan.handle(WireMsg::SetupChannel(msgs::SetupChannel {
         is_outbound: sd.outbound,
         channel_value: sd.chan_value,
@@ -229,7 +235,36 @@ fn fresh_base_wire(sd: &SetupD, c: &ContentD) -> Result<Live, String> {
         remote_to_self_delay: sd.cp_delay,
         remote_shutdown_script: Octets(vec![]),
         channel_type: Octets(wire_channel_type(sd.ctype)),
-    })).map_err(|e| format!("setup_channel: {}", handler_err(e)))?;
+    })).map(|_| ()).map_err(handler_err)
+}
+
+/// a second setup of the (ready) channel with the values of `sd`: Ok / refused
+fn resetup(live: &Live, sd: &SetupD) -> Result<(), String> {
+    match &live.root {
+        Some(root) => wire_setup(root, sd),
+        None => live.node.setup_channel(live.id.clone(), None, make_setup(sd), &DerivationPath::master()).map(|_| ()).map_err(|e| e.message().to_string()),
+    }
+}
+
+/// Handler mode: HsmdInit, NewChannel, GetChannelBasepoints, SetupChannel with the negotiated values on the wire.
+fn fresh_base_wire(sd: &SetupD, c: &ContentD) -> Result<Live, String> {
+    let persister: Arc<dyn Persist> = Arc::new(KVVPersister(MemoryKVVStore::new([7u8; 16]), JsonFormat));
+    let root = build_root(persister.clone(), sd.mode)?;
+    let peer = wire_peer();
+    root.handle(WireMsg::NewChannel(msgs::NewChannel { peer_id: PubKey(peer), dbid: WIRE_DBID })).map_err(|e| format!("new channel: {}", handler_err(e)))?;
+    let reply = root.handle(WireMsg::GetChannelBasepoints(msgs::GetChannelBasepoints { node_id: PubKey(peer), dbid: WIRE_DBID })).map_err(|e| format!("basepoints: {}", handler_err(e)))?;
+    let bp = reply.as_any().downcast_ref::<msgs::GetChannelBasepointsReply>().ok_or("GetChannelBasepointsReply")?;
+    let pk = |p: &PubKey| PublicKey::from_slice(&p.0).map_err(|e| format!("pubkey: {}", e));
+    let holder = ChannelPublicKeys {
+        funding_pubkey: pk(&bp.funding)?,
+        revocation_basepoint: RevocationBasepoint(pk(&bp.basepoints.revocation)?),
+        payment_point: pk(&bp.basepoints.payment)?,
+        delayed_payment_basepoint: DelayedPaymentBasepoint(pk(&bp.basepoints.delayed_payment)?),
+        htlc_basepoint: HtlcBasepoint(pk(&bp.basepoints.htlc)?),
+    };
+    let first = sd.pre.as_deref().unwrap_or(sd);
+    wire_setup(&root, first).map_err(|e| format!("setup_channel: {}", e))?;
+    if sd.pre.is_some() { let _ = wire_setup(&root, sd); }
     let node = root.node().clone();
     let id = ChannelId::new_from_peer_id_and_oid(&peer, WIRE_DBID);
     add_keysends(&node, c);
@@ -256,7 +291,12 @@ fn node_seed() -> [u8; 32] {
 
 fn services(persister: Arc<dyn Persist>, mode: u8) -> NodeServices {
     NodeServices {
-        validator_factory: Arc::new(SimpleValidatorFactory::new_with_policy(policy_for(mode))),
+        // bit 3 of the mode: the OnchainValidator wrapped around the SimpleValidator
+        validator_factory: if mode & 8 != 0 {
+            Arc::new(OnchainValidatorFactory::new_with_simple_factory(SimpleValidatorFactory::new_with_policy(policy_for(mode))))
+        } else {
+            Arc::new(SimpleValidatorFactory::new_with_policy(policy_for(mode)))
+        },
         starting_time_factory: make_genesis_starting_time_factory(Network::Testnet),
         persister,
         clock: Arc::new(StandardClock()),
@@ -273,8 +313,9 @@ fn fresh_base(sd: &SetupD, c: &ContentD) -> Result<Live, String> {
     persister.new_tracker(&node.get_id(), &node.get_tracker()).map_err(|e| format!("new_tracker: {:?}", e))?;
     node.add_allowlist(&[]).map_err(|e| format!("allowlist: {}", e.message()))?;
     let (id, _) = node.new_channel(WIRE_DBID, &wire_peer(), &node).map_err(|e| format!("new_channel: {:?}", e))?;
-    node.setup_channel(id.clone(), None, make_setup(sd), &DerivationPath::master())
+    node.setup_channel(id.clone(), None, make_setup(sd.pre.as_deref().unwrap_or(sd)), &DerivationPath::master())
         .map_err(|e| format!("setup_channel: {}", e.message()))?;
+    if sd.pre.is_some() { let _ = node.setup_channel(id.clone(), None, make_setup(sd), &DerivationPath::master()); }
     add_keysends(&node, c);
     let holder = node.with_channel(&id, |chan| Ok(chan.keys.pubkeys().clone())).map_err(|e| format!("pubkeys: {}", e.message()))?;
     Ok(Live { node, id, persister, holder, root: None })
@@ -828,6 +869,8 @@ struct Ctx {
     restart_next: bool,
     /// the node that accepted phase 2, restored after a `restart`: used by `p1retry` only
     retry: Option<Live>,
+    /// the HTLC signatures phase 2 returned (output order)
+    p2_hsigs: Vec<Signature>,
 }
 
 impl Ctx {
@@ -840,6 +883,39 @@ impl Ctx {
         }
         Ok(self.live.as_ref().unwrap())
     }
+}
+
+/// `sd` with one negotiated field changed (`same`: unchanged)
+fn changed_setup(sd: &SetupD, field: &str, v: u64) -> SetupD {
+    let mut n = sd.clone();
+    n.pre = None;
+    match field {
+        "outbound" => n.outbound = v != 0,
+        "hdelay" => n.holder_delay = v as u16,
+        "cdelay" => n.cp_delay = v as u16,
+        "txid" => n.txid = v as u8,
+        "vout" => n.vout = v as u32,
+        "value" => n.chan_value = v,
+        "ctype" => n.ctype = ['l', 's', 'a', 'z'][(v % 4) as usize],
+        _ => {}
+    }
+    n
+}
+
+/// the second-stage HTLC transaction of HTLC output `f` of the commitment `commit_txid` as the harness builds it
+fn own_htlc_tx(sd: &SetupD, kt: &KeyTab, commit_txid: Txid, vout: u32, locktime: u32, value: u64) -> Transaction {
+    let out_script = ScriptBuf::from(script_bytes(&Tpl::Local { rev: 1, delay: sd.holder_delay as i64, delayed: 2 }, kt));
+    Transaction {
+        version: Version::TWO,
+        lock_time: LockTime::from_consensus(locktime),
+        input: vec![TxIn { previous_output: OutPoint { txid: commit_txid, vout }, script_sig: ScriptBuf::new(), sequence: Sequence(if ldk_anchors(sd.ctype) { 1 } else { 0 }), witness: Witness::new() }],
+        output: vec![TxOut { value: Amount::from_sat(value), script_pubkey: out_script.to_p2wsh() }],
+    }
+}
+
+fn htlc_sighash(tx: &Transaction, redeem: &ScriptBuf, amount: u64, acp: bool) -> Option<[u8; 32]> {
+    let ty = if acp { EcdsaSighashType::SinglePlusAnyoneCanPay } else { EcdsaSighashType::All };
+    SighashCache::new(tx).p2wsh_signature_hash(0, redeem, Amount::from_sat(amount), ty).ok().map(|h| h.to_byte_array())
 }
 
 fn well_formed(sd: &SetupD, c: &ContentD) -> bool {
@@ -886,7 +962,7 @@ impl C04 {
                     co.violations.push(Violation { kind: "sig-not-canonical".into(), desc: format!("phase-1 signature does not verify under the funding key against the canonical tx of the recorded content ({} {})", cs, bc), at });
                 }
                 if canon_bytes != txb {
-                    if sd.mode != 2 {
+                    if !nonstrict(sd.mode) {
                         co.violations.push(Violation { kind: "mutated-tx-signed".into(), desc: format!("phase 1 accepted a transaction that is not the canonical transaction of the content it validated: submitted {} canonical {}", hex::encode(txb), hex::encode(&canon_bytes)), at });
                     } else {
                         co.tags.insert("p1:accept-nonstrict-mismatch".into());
@@ -955,13 +1031,13 @@ impl Group for C04 {
     }
     fn budget(&self, tier: Tier) -> usize { if tier == Tier::Quick { 500 } else { 6000 } }
     fn model_line(&self, op: &str) -> Option<String> {
-        if op.starts_with("impl ") || op.starts_with("p1raw ") || op == "p1retry" { None } else { Some(op.to_string()) }
+        if op.starts_with("impl ") || op.starts_with("p1raw ") || op == "p1retry" || op.starts_with("htlcraw ") { None } else { Some(op.to_string()) }
     }
     fn corpus(&self) -> Vec<Vec<String>> {
         // the repository's own scenario (sign_commitment_tx_with_mutators_setup), static and anchors
         let mut v = Vec::new();
         for (t, mode, via) in [('s', 0u8, false), ('z', 0, false), ('a', 1, false), ('l', 0, false), ('s', 0, true), ('z', 0, true)] {
-            let sd = SetupD { ctype: t, outbound: !via, holder_delay: 6, cp_delay: 7, txid: 2, vout: 0, chan_value: 3_000_000, mode, point: 10, via };
+            let sd = SetupD { ctype: t, outbound: !via, holder_delay: 6, cp_delay: 7, txid: 2, vout: 0, chan_value: 3_000_000, mode, point: 10, via, pre: None };
             let c = ContentD { commit_num: 23, feerate: 0, to_cs: 1_000_000, to_bc: 1_979_997 - if t == 'z' { 660 } else { 0 },
                 htlcs: vec![(true, 4000, 1, 2 << 16), (false, 5000, 3, 3 << 16), (false, 10_003, 5, 4 << 16)] };
             if let Some(ops) = build_case(&sd, &c, &mut Rng::new(7), Tier::Quick) { v.push(ops); }
@@ -979,7 +1055,7 @@ impl Group for C04 {
     }
     fn exec_case(&self, ops: &[String]) -> CaseOut {
         let mut co = CaseOut::default();
-        let mut cx = Ctx { sd: None, c: None, base: None, live: None, p2: None, kept: None, restart_next: false, retry: None };
+        let mut cx = Ctx { sd: None, c: None, base: None, live: None, p2: None, kept: None, restart_next: false, retry: None, p2_hsigs: vec![] };
         let mut mode = 0u8;
         let mut saw_keys = false;
         let mut point = 10u8;
@@ -989,11 +1065,114 @@ impl Group for C04 {
             let line: String = match t[0] {
                 "impl" => { mode = t[1].parse().unwrap(); point = t[2].parse().unwrap(); "ok".into() }
                 "keys" => { saw_keys = true; "ok".into() }
+                "resetup" => {
+                    // a second setup_channel / SetupChannel on the ready channel, identical but for one field
+                    let sd = cx.sd.clone().unwrap();
+                    let field = t[1];
+                    let nsd = changed_setup(&sd, field, t[2].parse().unwrap_or(0));
+                    let dummy = ContentD { commit_num: 1, feerate: 0, to_cs: 0, to_bc: 0, htlcs: vec![] };
+                    let verdict = match fresh_base(&sd, &dummy) { Err(_) => None, Ok(live) => Some(catch_unwind(AssertUnwindSafe(|| resetup(&live, &nsd)))) };
+                    match verdict {
+                        None => "no-channel".into(),
+                        Some(Err(_)) => { co.tags.insert("resetup:panic".into()); "refused".into() }
+                        Some(Ok(Err(_))) => { co.tags.insert(format!("resetup:refused:{}", field)); "refused".into() }
+                        Some(Ok(Ok(()))) => {
+                            co.tags.insert(format!("resetup:ok:{}", field));
+                            if field != "same" {
+                                // the signer acknowledged the new setup: from now on the channel's negotiated
+                                // parameters — and with them the oracle — are the new ones
+                                co.tags.insert("resetup:oracle-switched".into());
+                                let mut n = nsd.clone();
+                                n.pre = Some(Box::new(SetupD { pre: None, ..sd.clone() }));
+                                cx.sd = Some(n);
+                                cx.live = None; cx.kept = None; cx.base = None;
+                            }
+                            "ok".into()
+                        }
+                    }
+                }
+                "htlcraw" => {
+                    // implementation only: the raw second-stage entry point (sign_counterparty_htlc_tx) on the HTLC
+                    // transaction of the k-th HTLC output of the canonical commitment, possibly mutated
+                    let sd = cx.sd.clone().unwrap();
+                    let c = cx.c.clone().unwrap();
+                    let k: usize = t[1].parse().unwrap();
+                    let info = cx.base.as_ref().and_then(|b| {
+                        let hf = htlc_tx_fields(&sd, &c, &b.htlc_of);
+                        let commit: Transaction = deserialize(b.own.as_ref().unwrap_or(&b.bytes)).ok()?;
+                        hf.get(k).cloned().map(|f| (f, commit.compute_txid(), b.kt.clone()))
+                    });
+                    match info {
+                        None => "skip".into(),
+                        Some((f, commit_txid, kt)) if f.3.is_some() && sd.ctype != 'a' => {
+                            let (offered, amount, hash, cltv) = c.htlcs[f.5];
+                            let z = ldk_anchors(sd.ctype);
+                            let redeem_t = if offered { Tpl::Off { csv: z, rev: 1, k1: 4, k2: 3, hash, hashlen: 20 } }
+                                           else { Tpl::Recv { csv: z, rev: 1, k1: 4, hash, hashlen: 20, k2: 3, cltv: cltv as i64 } };
+                            let redeem = ScriptBuf::from(script_bytes(&redeem_t, &kt));
+                            let mut tx = own_htlc_tx(&sd, &kt, commit_txid, f.0, f.1, f.3.unwrap());
+                            let mut out_t = Tpl::Local { rev: 1, delay: sd.holder_delay as i64, delayed: 2 };
+                            match t[2] {
+                                "none" => {}
+                                "ver" => tx.version = Version(3),
+                                "seq" => tx.input[0].sequence = Sequence(tx.input[0].sequence.0 ^ 1),
+                                "seqhi" => tx.input[0].sequence = Sequence(0xffff_fffd),
+                                "lock" => tx.lock_time = LockTime::from_consensus(f.1.wrapping_add(1)),
+                                "val" => tx.output[0].value = Amount::from_sat(f.3.unwrap().saturating_sub(1)),
+                                "vout" => tx.input[0].previous_output.vout = tx.input[0].previous_output.vout.wrapping_add(1),
+                                "delay" => out_t = Tpl::Local { rev: 1, delay: sd.holder_delay as i64 + 1, delayed: 2 },
+                                "cdelay" => out_t = Tpl::Local { rev: 1, delay: sd.cp_delay as i64, delayed: 2 },
+                                "rev" => out_t = Tpl::Local { rev: 9, delay: sd.holder_delay as i64, delayed: 2 },
+                                "delayed" => out_t = Tpl::Local { rev: 1, delay: sd.holder_delay as i64, delayed: 3 },
+                                "addout" => { let o = tx.output[0].clone(); tx.output.push(o); }
+                                "spk" => tx.output[0].script_pubkey = ScriptBuf::from(spk_bytes(&Spk::Wpkh(5), &kt)),
+                                _ => {}
+                            }
+                            let out_ws = ScriptBuf::from(script_bytes(&out_t, &kt));
+                            if matches!(t[2], "delay" | "cdelay" | "rev" | "delayed") { tx.output[0].script_pubkey = out_ws.to_p2wsh(); }
+                            let point = make_test_pubkey(sd.point);
+                            let res = match cx.live() {
+                                Err(_) => None,
+                                Ok(live) => Some(catch_unwind(AssertUnwindSafe(|| live.node.with_channel(&live.id, |chan| chan.sign_counterparty_htlc_tx(&tx, &point, &redeem, amount, &out_ws))))),
+                            };
+                            match res {
+                                None => "no-channel".into(),
+                                Some(Err(_)) => { cx.live = None; co.tags.insert(format!("htlcraw:panic:{}", t[2])); "reject".into() }
+                                Some(Ok(Err(e))) => { co.tags.insert(format!("htlcraw:reject:{}:{}", t[2], if e.message().contains("sighash mismatch") { "mismatch" } else { "other" })); "reject".into() }
+                                Some(Ok(Ok(ts))) => {
+                                    co.tags.insert(format!("htlcraw:accept:{}", t[2]));
+                                    // whatever was accepted: the signature must be over the BOLT-3 second-stage transaction
+                                    // determined by the content of the request (outpoint, cltv of an offered HTLC, value)
+                                    let lt = if offered { tx.lock_time.to_consensus_u32() } else { 0 };
+                                    // (zero-fee HTLC transactions pay the full amount; otherwise the fee is part of the request)
+                                    let cv = if sd.ctype == 'z' { amount } else { tx.output[0].value.to_sat() };
+                                    let canon = own_htlc_tx(&sd, &kt, tx.input[0].previous_output.txid, tx.input[0].previous_output.vout, lt, cv);
+                                    let acp = is_anchors(sd.ctype);
+                                    let pk = PublicKey::from_slice(&kt.bytes(4)).unwrap();
+                                    let ver = |h: Option<[u8; 32]>| h.map(|h| Secp256k1::verification_only().verify_ecdsa(&Message::from_digest(h), &ts.sig, &pk).is_ok()).unwrap_or(false);
+                                    let hc = htlc_sighash(&canon, &redeem, amount, acp);
+                                    let hs = htlc_sighash(&tx, &redeem, amount, acp);
+                                    let expect_ty = if acp { EcdsaSighashType::SinglePlusAnyoneCanPay } else { EcdsaSighashType::All };
+                                    if !ver(hc) || ts.typ != expect_ty {
+                                        co.violations.push(Violation { kind: "htlc-raw-sig-not-canonical".into(), desc: format!("sign_counterparty_htlc_tx ({} of HTLC output {}, policy mode {}) returned a signature that does not verify against the BOLT-3 second-stage transaction{}", t[2], f.0, sd.mode, if ver(hs) { " — it verifies against the caller's transaction" } else { "" }), at: i });
+                                    } else if hs != hc {
+                                        co.violations.push(Violation { kind: "mutated-htlc-tx-signed".into(), desc: format!("sign_counterparty_htlc_tx accepted a second-stage transaction ({}) that is not the BOLT-3 one of its content", t[2]), at: i });
+                                    }
+                                    // (no byte comparison with the phase-2 HTLC signature: LDK grinds for low R, the raw path does
+                                    // not — both are valid signatures over the same sighash, which is what is checked)
+                                    if t[2] == "none" && cx.p2_hsigs.get(k).is_some() { co.tags.insert("htlcraw:canon-also-signed-by-phase2".into()); }
+                                    "accept".into()
+                                }
+                            }
+                        }
+                        Some(_) => "skip".into(),
+                    }
+                }
                 "setup" => {
                     let (ctype, outbound, hd, cd, txid, vout, cv) = parse_setup(&t).expect("setup");
                     if t.len() >= 12 { mode = t[10].parse().unwrap(); point = t[11].parse().unwrap(); }
                     let via = t.len() >= 13 && t[12] == "1";
-                    cx.sd = Some(SetupD { ctype, outbound, holder_delay: hd, cp_delay: cd, txid, vout, chan_value: cv, mode, point, via });
+                    cx.sd = Some(SetupD { ctype, outbound, holder_delay: hd, cp_delay: cd, txid, vout, chan_value: cv, mode, point, via, pre: None });
                     cx.c = None; cx.base = None; cx.live = None; cx.p2 = None; cx.kept = None; cx.restart_next = false;
                     co.tags.insert(format!("type:{}", ctype));
                     co.tags.insert(format!("mode:{}", mode));
@@ -1055,6 +1234,7 @@ impl Group for C04 {
                                 co.tags.insert("p2:accept".into());
                                 if sd.via { co.tags.insert("p2:accept:via-handler".into()); }
                                 cx.p2 = Some(Some(sig));
+                                cx.p2_hsigs = hsigs.clone();
                                 if let Some(b) = &cx.base {
                                     if !verify_commit_sig(&b.kt, sd.chan_value, &serialize(&b.stx, &b.kt), &sig) {
                                         co.violations.push(Violation { kind: "sig-not-canonical".into(), desc: "phase-2 signature does not verify under the funding key against the canonical transaction".into(), at: i });
@@ -1220,13 +1400,20 @@ impl Group for C04 {
             co.out.push(line);
         }
         co.nontrivial = saw_accept_htlc && saw_reject_mut;
+        if let Ok(path) = std::env::var("C04_TRACE") {
+            use std::io::Write;
+            if let Ok(mut f) = std::fs::OpenOptions::new().create(true).append(true).open(path) {
+                let _ = writeln!(f, "CASE");
+                for (o, l) in ops.iter().zip(co.out.iter()) { let _ = writeln!(f, "{}\t{}", o, l); }
+            }
+        }
         co
     }
 }
 
 fn gen_setup_content(rng: &mut Rng) -> (SetupD, ContentD) {
     let ctype = *rng.pick(&['s', 'z', 's', 'z', 'l', 'a']);
-    let mode = *rng.pick(&[0u8, 0, 0, 1, 1, 2]);
+    let mode = *rng.pick(&[0u8, 0, 0, 1, 1, 2, 3, 4, 5]);
     let mode = if (ctype == 'l' || ctype == 'a') && mode == 0 { if rng.chance(1, 2) { 1 } else { 0 } } else { mode };
     let delay = |rng: &mut Rng, lenient: bool| -> u16 {
         match rng.below(10) {
@@ -1248,7 +1435,8 @@ fn gen_setup_content(rng: &mut Rng) -> (SetupD, ContentD) {
         ctype, outbound: rng.chance(1, 2), holder_delay, cp_delay,
         txid: rng.range(1, 250) as u8,
         vout: if via { vout % 65536 } else { vout }, // funding_txout is a u16 on the wire
-        chan_value, mode, point: rng.range(10, 60) as u8, via,
+        // bit 3: the OnchainValidator factory around the SimpleValidator (a quarter of the cases)
+        chan_value, mode: mode | if rng.chance(1, 4) { 8 } else { 0 }, point: rng.range(10, 60) as u8, via, pre: None,
     };
     let feerate: u32 = match rng.below(8) { 0 => 0, 1 => 253, 2 => 1000, 3 => 7500, 4 => 25_000, 5 => rng.below(100_000) as u32, _ => rng.range(253, 5000) as u32 };
     let n = match rng.below(20) { 0 | 1 | 2 => 0, 3..=12 => rng.range(1, 5), 13..=17 => rng.range(6, 15), _ => rng.range(16, 30) } as usize;
@@ -1324,10 +1512,24 @@ fn build_case(sd: &SetupD, c: &ContentD, rng: &mut Rng, tier: Tier) -> Option<Ve
     };
     let (kt, obs) = keys_only(&live, sd);
     let mut ops = vec![
-        format!("setup {} {} {} {} {} {} {} {} {} {} {} {}", sd.ctype, if sd.outbound { 1 } else { 0 }, sd.holder_delay, sd.cp_delay, sd.txid, sd.vout, sd.chan_value, obs, if sd.mode == 2 { 0 } else { 1 }, sd.mode, sd.point, if sd.via { 1 } else { 0 }),
+        format!("setup {} {} {} {} {} {} {} {} {} {} {} {}", sd.ctype, if sd.outbound { 1 } else { 0 }, sd.holder_delay, sd.cp_delay, sd.txid, sd.vout, sd.chan_value, obs, if nonstrict(sd.mode) { 0 } else { 1 }, sd.mode, sd.point, if sd.via { 1 } else { 0 }),
         keys_line(&kt),
-        content_line(c),
     ];
+    // a quarter of the cases: a second setup of the ready channel, identical or with exactly one field changed
+    if rng.chance(1, 4) {
+        let (f, v): (&str, u64) = match rng.below(8) {
+            0 => ("same", 0),
+            1 => ("outbound", if sd.outbound { 0 } else { 1 }),
+            2 => ("hdelay", (sd.holder_delay as u64 + 1) % 65536),
+            3 => ("cdelay", (sd.cp_delay as u64 + 1) % 65536),
+            4 => ("txid", (sd.txid as u64 % 250) + 1),
+            5 => ("vout", (sd.vout as u64 + 1) % 65536),
+            6 => ("value", sd.chan_value + 1),
+            _ => ("ctype", match sd.ctype { 'l' => 1, 's' => 3, 'a' => 3, _ => 1 }),
+        };
+        ops.push(format!("resetup {} {}", f, v));
+    }
+    ops.push(content_line(c));
     let base_pol = pol_of(sd, c);
     // restarts (real persister + Node::restore_node): before the first signing request and/or between the phases
     let (r1, r2, r3) = (rng.chance(1, 3), rng.chance(1, 3), rng.chance(1, 3));
@@ -1431,6 +1633,16 @@ fn build_case(sd: &SetupD, c: &ContentD, rng: &mut Rng, tier: Tier) -> Option<Ve
         let len = ws[wi].as_ref().map(|t| script_bytes(t, &kt).len()).unwrap_or(0);
         if len == 0 { continue; }
         ops.push(format!("p1raw ws {} {} {}", wi, rng.below(len as u64), 1u8 << rng.below(8)));
+    }
+    // the raw second-stage entry point on HTLC transactions of this commitment (implementation only)
+    let n_htlc_outs = c.htlcs.len();
+    if n_htlc_outs > 0 && sd.ctype != 'a' {
+        let muts = ["ver", "seq", "seqhi", "lock", "val", "vout", "delay", "cdelay", "rev", "delayed", "addout", "spk"];
+        for _ in 0..(if tier == Tier::Quick { 2 } else { 4 }) {
+            let k = rng.below(n_htlc_outs as u64);
+            ops.push(format!("htlcraw {} none", k));
+            for _ in 0..3 { ops.push(format!("htlcraw {} {}", k, rng.pick(&muts))); }
+        }
     }
     Some(ops)
 }
